@@ -273,3 +273,6 @@ SUBCHECKS = [
     SubCheck("helper", _helper_cases, check_helper, quick=400, thorough=2000,
              rule="helper-level insertion then knot_removal/knot_removal_kv; non-trivial as history, or rows of points"),
 ]
+
+# coverage-guided tier (thorough only): (sub-check, libFuzzer runs per process, processes)
+FUZZ = [("helper", 20000, 3)]
